@@ -47,7 +47,9 @@ EXTENDS Integers, Sequences, FiniteSets, TLC, Json
 
 CONSTANTS Seeds,            \* initial (partial) scenarios
           ScenariosOf(_),   \* seed -> set of complete scenarios
-          Cuts              \* closed-pipe scenarios: cut \in 0..Cuts-1
+          Cuts,             \* closed-pipe scenarios: cut \in 0..Cuts-1
+          QuietWins         \* TRUE: the documented rule.  FALSE only in the self-test cfg: clause 0
+                            \* without "-q found a match", which TLC must reject (Partition)
 
 VARIABLES scn, pc
 vars == <<scn, pc>>
@@ -110,7 +112,7 @@ Closed(s)  == s.cut >= 0
 
 \* The three clauses of the statement, one operator each.
 Clause(st, s) ==
-  CASE st = 0 -> (Matched(s) /\ ~Errored(s)) \/ (Quiet(s) /\ Matched(s))
+  CASE st = 0 -> (Matched(s) /\ ~Errored(s)) \/ (QuietWins /\ Quiet(s) /\ Matched(s))
     [] st = 1 -> ~Matched(s) /\ ~Errored(s)
     [] st = 2 -> Errored(s) /\ ~(Quiet(s) /\ Matched(s))
 
